@@ -737,3 +737,19 @@ package fsm
 // byzantine-evidence handling (non-signer settlement, non-signer counting, double-signer slashing) only burns
 //@ func (*StateMachine).HandleByzantine
 //@   ensures[conserve] err == nil ==> drift(s) == old(drift(s)) && acctBal() == old(acctBal()) && poolBal() == old(poolBal())
+
+// ---- C20: the atomic lock of a DEX batch is lifted only by the counter chain's acknowledgement -------------------
+// our locked batch (which also carries the receipts we owe) is deleted only when the counter chain's batch names it
+// by hash and brings one receipt per order: otherwise the same counter-chain batch, re-served every block, would be
+// settled again (settlement starts - first call: the pool balance read - only under that condition, and the lock is
+// deleted only at the end of a settlement)
+//@ spec func dexBatchHash(b *lib.DexBatch) BSeq reads reach
+//@ func (*lib.DexBatch).Hash
+//@   trusted
+//@   pure
+//@   ensures bytes(result) == dexBatchHash(x)
+//@ func (*lib.DexBatch).IsEmpty
+//@   trusted
+//@   pure
+//@ func (*StateMachine).HandleReceiptsForOurLockedBatch
+//@   callsite GetPoolBalance requires[acknowledged] bytes(remoteBatch.ReceiptHash) == dexBatchHash(localBatch) && len(localBatch.Orders) == len(remoteBatch.Receipts)
